@@ -8,26 +8,27 @@ commands the PHY-side decoder saw complete) against the composites computed here
 Liveness is checked as bounded response under a fairness assumption on the PHY (a presented byte is accepted within
 two cycles).
 
-FINDINGS (genuine defects, not fixed in /repo: recorded in known_findings.json, each with a scenario predicate kf_*
-that is 1 only from its triggering coincidence on; violations in runs without such a coincidence (all of bmc_startup,
-and every run up to its first coincidence) are still reported):
+FINDINGS (genuine defects of the anchored code found by this check; repaired in /repo by findings/C24_regwrite_latch.patch
+and findings/C24_tx_arbitration.patch; the scenario predicates kf_* that used to mask them are gone, every assertion is
+checked in every history; the check is green on the repaired tree):
   A. tx_and_regwrite_same_cycle_deadlock -- a transmission that is waiting to start (tx_valid, DIR low) in the cycle in
-     which the control translator requests a write: ulpi_out_req is latched, control_translator.busy (registered) then
-     removes bus_idle from the transmitter, the data mux gives the silent transmitter priority over the register
-     window: neither the TXCMD nor the RegWrite ever reaches the bus (viol tx_progress); in other interleavings of
-     the same race the write runs under/after the transmission as in B.  Reached from reset with the
-     ordinary full-speed setting (xcvr_select=1, term_select=1) and tx_valid from step 0, and whenever tx_valid waits
-     while the second of two register writes is requested.
+     which the control translator requests a write: ulpi_out_req was latched, control_translator.busy (registered) then
+     removed bus_idle from the transmitter, the data mux gave the silent transmitter priority over the register
+     window: neither the TXCMD nor the RegWrite ever reached the bus (viol tx_progress).  Reached from reset with the
+     ordinary full-speed setting (xcvr_select=1, term_select=1) and tx_valid from step 0.
   B. regwrite_requested_during_txcmd -- a control input changes while the TXCMD byte is on the bus (the transmitter
-     only counts as busy after NXT): the register window performs its write "under" the transmission, takes the
-     transmission's NXT for its own, reports done (shadow register updated, PHY register not: viol converge) or lets
-     its data/STP out when the transmission ends (viol link_framing/write_addr/write_value); with a slow NXT the
-     TXCMD is withdrawn and both stall (viol tx_progress).
-  C. control_input_changed_while_write_in_flight -- ULPIRegisterWindow uses the live, re-multiplexed address /
-     write_data (its current_address/current_write latches are unused) and ULPIControlTranslator credits `done` to the
+     only counted as busy after NXT): the register window performed its write "under" the transmission, took the
+     transmission's NXT for its own and reported done (shadow register updated, PHY register not: viol converge) or let
+     its data/STP out when the transmission ended (viol link_framing/write_addr/write_value).
+     Repair of A and B: ULPITransmitTranslator.busy also covers the cycles in which a TXCMD is presented, and
+     ulpi_out_req is released whenever no command can be presented.
+  C. control_input_changed_while_write_in_flight -- ULPIRegisterWindow used the live, re-multiplexed address /
+     write_data (its current_address/current_write latches were unused) and ULPIControlTranslator credited `done` to the
      live priority winner with the live write_value: RegWrite to address 0x00 when the inputs changed back
      (viol write_addr), Function Control's value written to the OTG Control address (viol write_value), shadow
-     register updated to a value the PHY never received so the PHY register stays wrong for ever (viol converge).
+     register updated to a value the PHY never received so the PHY register stayed wrong for ever (viol converge).
+     Repair: the window uses its latches; the translator marks the register whose write the window accepted
+     (write_pending), holds the value handed over and credits `done` to that register with that value.
 """
 from amaranth import *
 from ..harness import Harness
@@ -37,9 +38,10 @@ from ..lib.ulpi import ULPIBus, ULPIPhyModel, FUNC_CTRL, OTG_CTRL
 PROP = "C24"
 ENCODED = [
     "luna/gateware/interface/ulpi.py: ULPIControlTranslator.add_composite_register/populate_ulpi_registers/elaborate "
-    "(shadow registers, write_value tracking, priority mux onto the register window)",
-    "luna/gateware/interface/ulpi.py: ULPIRegisterWindow.elaborate (write FSM, live address/write_data, DIR aborts)",
+    "(shadow registers, write_value/write_pending tracking, priority mux onto the register window)",
+    "luna/gateware/interface/ulpi.py: ULPIRegisterWindow.elaborate (write FSM, current_address/current_write latches, DIR aborts)",
     "luna/gateware/interface/ulpi.py: UTMITranslator.elaborate (bus_idle cross-gating, data/stp mux)",
+    "luna/gateware/interface/ulpi.py: ULPITransmitTranslator.elaborate (busy, ulpi_out_req while waiting for the bus)",
 ]
 ASSUMPTIONS = [
     "ULPI PHY contract of lib/ulpi.py (turnaround, NXT only to accept presented command bytes, DIR may abort a register "
@@ -56,7 +58,8 @@ ASSUMPTIONS = [
 CONVERGE = 24
 TX_BOUND = 24
 BOUNDS = "BMC from reset; control inputs free every cycle (layers: constant / free), DIR/NXT free within contract + " \
-         "fairness; quick K=28 (26 fully free, 32-34 convergence-only), thorough K=40 (38 fully free, 44-46 convergence-only)"
+         "fairness; quick K=28 (26 fully free, 32-34 convergence-only / progress-only), thorough K=40 (38 fully free, 44-46 " \
+         "convergence-only / progress-only)"
 OUTSIDE = "unbounded liveness (only the stated cycle bounds); extra registers (add_extra_register); PHYs slower than " \
           "the fairness bound; register reads; K beyond the bounds"
 
@@ -82,11 +85,8 @@ class CtrlHarness(Harness):
         names = ["write_addr", "write_value", "converge", "tx_progress", "link_framing", "cmd_held"]
         self.v = {n: self.viol(n) for n in names}
         cov = ["fc_written", "otg_written", "both_written", "aborted_then_written", "converged_after_write",
-               "change_in_flight", "tx_after_write", "write_after_tx"]
+               "change_in_flight", "tx_after_write", "write_after_tx", "tx_and_write_same_cycle", "change_during_txcmd"]
         self.c = {n: self.cover(n) for n in cov}
-        # scenario predicates of the recorded findings (see FINDINGS above and known_findings.json)
-        self.kfs = {n: self.kf(n) for n in ("tx_and_regwrite_same_cycle_deadlock", "regwrite_requested_during_txcmd",
-                                            "control_input_changed_while_write_in_flight")}
 
     def elaborate(self, platform):
         m = Module()
@@ -166,37 +166,6 @@ class CtrlHarness(Harness):
             d += txw.eq(txw + 1)
         m.d.comb += v["tx_progress"].eq(txw == TX_BOUND)
 
-        # ---- scenario predicates of the recorded findings: sticky from the triggering coincidence to the end of the
-        # bounded run.  (They cannot be cleared on an externally clean bus: the defects corrupt the control
-        # translator's hidden shadow registers, which makes later writes go wrong although PHY registers and request
-        # agreed in between -- seen in a replay when clearing was tried.)
-        write_wanted = Signal(name="write_wanted")
-        inflight_w = Signal(name="inflight_w")
-        m.d.comb += [
-            write_wanted.eq((req_fc != phy.reg_fc) | (req_otg != phy.reg_otg)),
-            inflight_w.eq(phy.cmd_rw | phy.in_state(phy.RW_DATA) | phy.in_state(phy.RW_STP)),
-        ]
-        tx_pending = tx_valid & ~phy.in_state(phy.TX)
-        age = Signal(2, name="age")                      # cycles since reset, saturating
-        with m.If(age != 3):
-            d += age.eq(age + 1)
-        p_pending = Signal(name="p_write_pending")       # a write was wanted or on the bus in the previous cycle
-        d += p_pending.eq(write_wanted | inflight_w)
-        set_now = {
-            # a transmission is waiting to start (TXCMD not on the bus yet) in a cycle in which a register write is
-            # wanted or running: both sides may claim the bus in the same cycle
-            "tx_and_regwrite_same_cycle_deadlock": tx_pending & ~phy.cmd_tx & ~dir_ & (write_wanted | inflight_w),
-            # a register write becomes wanted while the TXCMD byte is on the bus waiting for / getting NXT
-            "regwrite_requested_during_txcmd": phy.cmd_tx & write_wanted,
-            # control inputs change (from the third cycle on) while a write is wanted or on the bus
-            "control_input_changed_while_write_in_flight": changed & (age >= 2) & p_pending,
-        }
-        for n, s_now in set_now.items():
-            flag = Signal(name=f"kfreg_{n}")
-            with m.If(s_now):
-                d += flag.eq(1)
-            m.d.comb += self.kfs[n].eq(flag | s_now)
-
         # ---- covers
         fc_w, otg_w, ab, wr_any, tx_done = (Signal(name=n) for n in ("fc_w", "otg_w", "ab", "wr_any", "tx_done"))
         with m.If(commit_fc):
@@ -213,7 +182,29 @@ class CtrlHarness(Harness):
         chg_fl = Signal(name="chg_in_flight")
         with m.If(changed & inflight):
             d += chg_fl.eq(1)
+        # the coincidences of the repaired findings A and B (formerly kf scenarios) are reached and resolved:
+        # A: a transmission waits to start (TXCMD not yet on the bus) in a cycle in which a register write is wanted or
+        #    running -- afterwards both the transmission and a register write complete;
+        # B: a register write becomes wanted while the TXCMD byte is on the bus -- the transmission completes and
+        #    afterwards the write.
+        write_wanted = (req_fc != phy.reg_fc) | (req_otg != phy.reg_otg)
+        tx_pending = tx_valid & ~phy.in_state(phy.TX)
+        race_a, race_a_tx, race_a_wr = Signal(name="race_a"), Signal(name="race_a_tx"), Signal(name="race_a_wr")
+        race_b, race_b_tx = Signal(name="race_b"), Signal(name="race_b_tx")
+        with m.If(tx_pending & ~phy.cmd_tx & ~dir_ & (write_wanted | inflight)):
+            d += race_a.eq(1)
+        with m.If(race_a & phy.tx_stp):
+            d += race_a_tx.eq(1)
+        with m.If(race_a & phy.rw_commit):
+            d += race_a_wr.eq(1)
+        with m.If(phy.cmd_tx & write_wanted & ~inflight):
+            d += race_b.eq(1)
+        with m.If(race_b & phy.tx_stp):
+            d += race_b_tx.eq(1)
         m.d.comb += [
+            c["tx_and_write_same_cycle"].eq((race_a_tx & phy.rw_commit) | (race_a_wr & phy.tx_stp)),
+            c["change_during_txcmd"].eq(race_b_tx & ((commit_fc & (phy.rw_data == req_fc)) |
+                                                        (commit_otg & (phy.rw_data == req_otg)))),
             c["fc_written"].eq(commit_fc & (phy.rw_data == req_fc) & (req_fc != 0x41)),
             c["otg_written"].eq(commit_otg & (phy.rw_data == req_otg)),
             c["both_written"].eq((commit_otg & fc_w) | (commit_fc & otg_w)),
@@ -264,8 +255,12 @@ def queries(tier):
         Query("bmc_changes_converge", f_free_notx, K + 4, asserts=["converge"], covers=[], timeout=900,
               desc="layer: as bmc_changes, deeper, convergence assertion only (a change in flight at step >= 4 plus the "
                    "24-cycle convergence bound)"),
-        Query("bmc_free", f_free, K - 2, covers=["write_after_tx"], timeout=900,
+        Query("bmc_free", f_free, K - 2, covers=["write_after_tx", "tx_and_write_same_cycle", "change_during_txcmd"],
+              timeout=900,
               desc="control inputs free every cycle, transmit side free, DIR/NXT free within contract and fairness"),
+        Query("bmc_free_tx_progress", f_free, K + 4, asserts=["tx_progress"], covers=[], timeout=900,
+              desc="as bmc_free, deeper, transmit-progress assertion only (a TXCMD aborted by DIR, a register write "
+                   "requested under DIR, plus the 24-cycle progress bound needs about 30 steps)"),
         Query("cosim", f_free, 0, kind="cosim", cosim_cycles=300 if quick else 2000),
     ]
     return qs
